@@ -247,6 +247,7 @@ pub open spec fn flat_upto<T>(v: Seq<Vec<T>>, n: int) -> Seq<T> decreases n { if
 pub axiom fn ax_vec_alloc_limit<T>(v: &Vec<T>) ensures v@.len() <= isize::MAX;
 /// D18 target: `a.min(b)` on primitive integers (`Ord::min`)
 pub trait VerifOrdMin: Sized { spec fn as_int(self) -> int; }
+impl VerifOrdMin for u8 { open spec fn as_int(self) -> int { self as int } }
 impl VerifOrdMin for u32 { open spec fn as_int(self) -> int { self as int } }
 impl VerifOrdMin for u64 { open spec fn as_int(self) -> int { self as int } }
 impl VerifOrdMin for usize { open spec fn as_int(self) -> int { self as int } }
